@@ -219,8 +219,10 @@ func (e *Engine) Do(j *Job) *Reply {
 
 // Task is one project to explore up to a preemption bound.
 type Task struct {
-	Proj  *Project
-	Bound int
+	Proj     *Project
+	Bound    int  // preemption bound
+	MapBound int  // bound on map-order deviations
+	NoSched  bool // no branching on scheduling points (map deviations on the default schedule)
 }
 
 // ObsInfo is one distinct observation of a project.
@@ -243,6 +245,7 @@ type ProjResult struct {
 	RootHash   string
 	RootSig    string
 	RootPoints int
+	RootMap    int
 	RootSteps  int64
 	Goroutines int
 	Obs        map[string]*ObsInfo
@@ -323,7 +326,7 @@ func (e *Engine) Explore(tasks []Task, deadline time.Time) []*ProjResult {
 		t := tasks[i]
 		r := e.Do(&Job{Op: "root", Proj: t.Proj})
 		p := &ProjResult{Task: t, Complete: true, Obs: map[string]*ObsInfo{}}
-		p.RootSig, p.RootPoints, p.RootSteps, p.Goroutines = r.RootSig, len(r.RootN), r.RootSteps, r.Gor
+		p.RootSig, p.RootPoints, p.RootSteps, p.Goroutines, p.RootMap = r.RootSig, len(r.RootN), r.RootSteps, r.Gor, r.RootMap
 		p.RootHash = r.Seen[0].Hash
 		p.merge(r)
 		res[i] = p
@@ -345,7 +348,7 @@ func (e *Engine) Explore(tasks []Task, deadline time.Time) []*ProjResult {
 			step = 1
 		}
 		for f := 0; f < k; f += step {
-			jobs = append(jobs, job{i, &Job{Op: "explore", Proj: t.Proj, RootSig: res[i].RootSig, RootHash: res[i].RootHash, From: f, To: f + step, Bound: t.Bound, Deadline: dl}})
+			jobs = append(jobs, job{i, &Job{Op: "explore", Proj: t.Proj, RootSig: res[i].RootSig, RootHash: res[i].RootHash, From: f, To: f + step, Bound: t.Bound, MapBound: t.MapBound, NoSched: t.NoSched, Deadline: dl}})
 		}
 	}
 	vl.ParDo(len(jobs), e.N, func(n int) {
